@@ -5,7 +5,7 @@ From RN Require Export Base.Bytes.
 Inductive res (A : Type) : Type :=
 | Ok (a : A)
 | Mismatch            (* "Content mismatch in …": anyhow error, stale plan *)
-| Panic.              (* Rust would panic: slice out of range / not a char boundary *)
+| Panic.              (* Rust would panic: replace_range out of range / not a char boundary *)
 Arguments Ok {A} a.
 Arguments Mismatch {A}.
 Arguments Panic {A}.
@@ -39,7 +39,7 @@ Fixpoint apply_rev_aux (orig : bytes) (res_ : list edit) (acc : bytes) : res byt
   | [] => Ok acc
   | e :: rest =>
       match str_slice orig (e_start e) (e_stop e) with
-      | None => Panic
+      | None => Mismatch     (* original_content.get(start..end) is None: "Content mismatch ... outside the file" *)
       | Some actual =>
           if beq actual (e_old e) then
             match replace_range acc (e_start e) (e_stop e) (e_new e) with
